@@ -41,6 +41,9 @@ def permutations_of(t, limit, r):
     r.shuffle(out)
     return out[:limit]
 
+MUST_CONVERT = set()      # writings of trees that are known to be realisable: an empty result for them is reported
+
+
 def shape_twins(r, n):
     """trees with two arms made of the same residues and the same linkages, one branched and one linear:
     R[ X[A(3), B(4)] (3) , X[A(3)[B(4)]] (6) ] -- anything that summarises a subtree without its shape confuses them"""
@@ -110,6 +113,7 @@ def make_trees(r, tier):
             kids.append((r.choice("ab"), 1, 4 if pp != 4 else 2, T.Node("Xyl")))
         node = T.Node(par, kids)
         trees.append(node if r.random() < 0.5 else T.Node("Glc", [("b", 1, 4, node)]))
+        MUST_CONVERT.add(T.render(trees[-1]))
     # four substituents on a non-root and on the root residue, nested
     four = T.Node("Glc", [("b", 1, 4, T.Node("Man", [("a", 1, 2, T.Node("Gal")), ("a", 1, 3, T.Node("Fuc")), ("b", 1, 4, T.Node("Xyl")), ("a", 2, 6, T.Node("Neu5Ac"))]))])
     trees.append(four)
@@ -198,6 +202,10 @@ def run(tier):
             report.case(ws[0] + " ~ " + w, True, {"written": ws[0], "permuted": w, "max_substituents": maxk} if n_pairs <= 4 else None)
             o = outs[w]["smiles"]
             if not base and not o:
+                if ws[0] in MUST_CONVERT:
+                    report.fail({"site": "order", "kind": "empty-for-every-writing", "max_kids": maxk},
+                                {"written": ws[0], "permuted": w, "results": [base, o],
+                                 "problem": "a realisable glycan (two branches bound through the two free hydroxyls of one phosphate) comes back empty in every writing"})
                 continue
             if bool(base) != bool(o):
                 report.fail({"site": "order", "kind": "empty-vs-molecule", "max_kids": maxk},
